@@ -32,7 +32,7 @@ ASSUMPTIONS = [
 
 def gen_grid_spec(rng):
     srs = rng.choice(['EPSG:3857', 'EPSG:4326', 'EPSG:25832', 'EPSG:3035', 'EPSG:900913'])
-    bclass = rng.choice(['global', 'regional', 'integer', 'irrational', 'offset', 'tiny'])
+    bclass = rng.choice(['global', 'regional', 'integer', 'irrational', 'offset', 'tiny', 'nearly_aligned', 'nearly_aligned'])
     if srs in ('EPSG:3857', 'EPSG:900913'):
         world = (-20037508.342789244, -20037508.342789244, 20037508.342789244, 20037508.342789244)
     elif srs == 'EPSG:4326':
@@ -66,9 +66,25 @@ def gen_grid_spec(rng):
             bbox = (170.0 + rng.random(), 80.0 + rng.random(), 175.0 + rng.random(), 85.0 + rng.random())
     else:
         bbox = (0.0, 0.0, rng.uniform(0.5, 3.0), rng.uniform(0.5, 3.0))
+    if bclass == 'nearly_aligned':
+        bbox = (0.0, 0.0, 1.0, 1.0)   # replaced below
     tile_size = rng.choice([(256, 256), (256, 256), (512, 512), (256, 128), (100, 300), (64, 64)])
     origin = rng.choice(['ll', 'ul', 'sw', 'nw', None])
     lclass = rng.choice(['f2', 'f2', 'sqrt2', 'free', 'list', 'single', 'minres'])
+    near = None
+    if bclass == 'nearly_aligned':
+        # rows of every level fill the bbox exactly, or miss it by a small fraction of a pixel
+        r0 = rng.choice([100.0, 50.0, 0.5, 1000.0, 0.703125])
+        div = rng.choice([[1, 2, 5], [1, 2, 4, 8], [1, 2], [1, 5, 10], [1]])
+        nx0, ny0 = rng.randint(1, 3), rng.randint(1, 3)
+        x0 = rng.choice([0.0, 0.0, 500000.0, -20037508.0, 3.5e6]) if r0 > 1 else rng.choice([0.0, -180.0, 10.0])
+        y0 = rng.choice([0.0, 0.0, 5.2e6, -20037508.0]) if r0 > 1 else rng.choice([0.0, -90.0, 40.0])
+        rl = r0 / div[-1]
+        eps = rng.choice([0.0, 0.0, 1e-9, 1e-6, 0.005, 0.01, 0.03, 0.05, 0.09, 0.2, 0.5]) * rl
+        exs = rng.choice([0.0, 0.0, 0.01, 0.3]) * rl
+        bbox = (x0, y0, x0 + nx0 * tile_size[0] * r0 - exs, y0 + ny0 * tile_size[1] * r0 - eps)
+        near = [r0 / d_ for d_ in div]
+        lclass = 'list'
     spec = {'srs': srs, 'bbox': list(bbox), 'tile_size': list(tile_size), 'origin': origin, 'bclass': bclass,
             'lclass': lclass, 'stretch': rng.choice([1.15, 1.15, 1.0, 1.01, 1.5, 1.3])}
     w, h = bbox[2] - bbox[0], bbox[3] - bbox[1]
@@ -90,6 +106,8 @@ def gen_grid_spec(rng):
         spec['res_factor'] = 2.0
         spec['min_res'] = r0 * rng.uniform(0.3, 3.0)
         spec['num_levels'] = rng.randint(2, 16)
+    elif near is not None:
+        spec['res'] = near
     else:
         n = rng.randint(2, 14)
         rs = set()
